@@ -481,5 +481,7 @@ func run(c *vkit.Collector, rng *vkit.Rng, budget int) {
 	o.genTuples(budget)
 	o.genDistances(budget)
 	o.genDistance(budget)
+	o.genDistanceGrid(budget)
+	o.genDistancesGrid(budget)
 	o.genDot(budget)
 }
